@@ -20,6 +20,20 @@ def gen(rng, tier):
     big = tier == "thorough" and rng.chance(0.25)
     c = G.gen_fa(rng, adversarial=rng.chance(0.05), max_states=8 if big else rng.pick([4, 5, 6]),
                  max_trans=15 if big else rng.pick([6, 9, 11]))
+    if rng.chance(0.012):
+        # one word spelled by 2^k runs (a chain of k "diamonds"): enumeration must merge the runs that reach the same
+        # state with the same word, or the bounded-liveness clause below fails
+        k = rng.randint(10, 13)
+        tr = []
+        for i in range(k):
+            tr += [["L%d" % i, "a", "U%d" % i], ["L%d" % i, "a", "W%d" % i],
+                   ["U%d" % i, "b", "L%d" % (i + 1)], ["W%d" % i, "b", "L%d" % (i + 1)]]
+        rng.shuffle(tr)
+        c.update(kind=rng.pick(["nfa", "enfa"]), valmode="str", symmode="str", hash=None, hashmode="plain",
+                 states=sorted({x for t in tr for x in (t[0], t[2])}), symbols=["a", "b"], trans=tr,
+                 starts=["L0"], finals=["L%d" % k], ctor=False, ctor_tf=False, ctor_all=False, extra_symbols=[],
+                 extra_states=[], ghost_trans=None, ghost_final=None, ghost_start=None, eps_string_edge=None,
+                 profile="diamonds")
     c["bounds"] = sorted(rng.sample(range(0, 6), 2))
     c["step_k"] = rng.randint(0, 4)
     return c
@@ -99,6 +113,8 @@ def run(case, out):
         out.probe("finite_language_too_large_for_the_liveness_clause")
     elif wantw is not None:
         out.probe("finite_language")
+        if case.get("profile") == "diamonds":
+            out.probe("one_word_many_runs")
         b = LineBudget(LINE_BUDGET)
         try:
             with b:
